@@ -643,3 +643,51 @@ Proof.
   intros _. split; [reflexivity|]. split; [reflexivity|]. intros r Hr.
   destruct (aggr3_scan_homogeneous _ _ _ _ _ _ _ Es r Hr) as [A [B [C _]]]. auto.
 Qed.
+
+(* ---- incomplete_never_denies, hash side: when the hash of the question name cannot be had (the
+   work governor refused the computation, or a concurrent validation that owned the memo slot
+   failed), no entry point produces a denial *)
+Theorem aggr_nsec3_failed_hash q qtype qclass signer recs tab :
+  hash_lookup tab q = None -> exists e, aggr_nsec3 q qtype qclass signer recs tab = A_err e.
+Proof.
+  intros Hn. unfold aggr_nsec3.
+  destruct (negb (question_ok qtype qclass)); [eauto|].
+  destruct (negb (prefix_b signer q)); [eauto|].
+  destruct recs as [|r0 t]; [eauto|].
+  destruct (aggr3_scan signer qclass 0 (r0 :: t) None []) as [[|e0 es]|]; [eauto| |eauto].
+  rewrite Hn. eauto.
+Qed.
+
+Lemma lookup3_failed g tab n : prefix_b (g_zone g) n = true -> hash_lookup tab n = None -> lookup3 g tab n = LK_err E_other.
+Proof. intros Hp Hn. unfold lookup3. rewrite Hp, Hn. reflexivity. Qed.
+
+Theorem nsec3_nameerror_failed_hash q qclass recs signer tab :
+  prefix_b signer q = true -> hash_lookup tab q = None ->
+  fst (verify_nameerror_nsec3 q qclass recs signer tab) <> E_ok.
+Proof.
+  intros Hp Hn. unfold verify_nameerror_nsec3.
+  destruct (prepare_set recs signer) as [g|] eqn:Ep; [|cbn; discriminate].
+  assert (Hz : g_zone g = signer).
+  { unfold prepare_set in Ep. destruct (prepare_scan signer 0 recs None []) as [[[f|] [|e es]]|]; try discriminate.
+    inversion Ep. reflexivity. }
+  destruct (negb (g_class g =? qclass)); [cbn; discriminate|].
+  assert (Hc : closest_validated g tab q = inl E_other \/ closest_validated g tab q = inl E_missing).
+  { unfold closest_validated. destruct (length q) as [|k] eqn:El.
+    - right. reflexivity.
+    - left. cbn [closest3]. rewrite <- El, firstn_all. unfold find_matching.
+      rewrite (lookup3_failed g tab q) by (rewrite ?Hz; assumption). reflexivity. }
+  destruct Hc as [-> | ->]; cbn; discriminate.
+Qed.
+
+Theorem nsec3_nodata_failed_hash fx q qtype qclass recs signer tab :
+  prefix_b signer q = true -> hash_lookup tab q = None ->
+  fst (verify_nodata_nsec3_gen fx q qtype qclass recs signer tab) <> E_ok.
+Proof.
+  intros Hp Hn. unfold verify_nodata_nsec3_gen.
+  destruct (prepare_set recs signer) as [g|] eqn:Ep; [|cbn; discriminate].
+  assert (Hz : g_zone g = signer).
+  { unfold prepare_set in Ep. destruct (prepare_scan signer 0 recs None []) as [[[f|] [|e es]]|]; try discriminate.
+    inversion Ep. reflexivity. }
+  destruct (negb (g_class g =? qclass)); [cbn; discriminate|].
+  unfold find_matching. rewrite (lookup3_failed g tab q) by (rewrite ?Hz; assumption). cbn. discriminate.
+Qed.
